@@ -1589,6 +1589,11 @@ impl Tree {
 		let checkpoint = DatabaseCheckpoint::new(Arc::clone(&self.core.inner));
 		let metadata = checkpoint.restore_from_checkpoint(checkpoint_dir)?;
 
+		// The restored files reuse table ids (and value-log file ids) of the discarded
+		// timeline: blocks and values cached under those ids belong to files that no
+		// longer exist.
+		self.core.inner.opts.block_cache.clear();
+
 		// Step 2: Reload in-memory state to match restored files
 
 		// Create a new LevelManifest from the current path
